@@ -5,7 +5,7 @@ Import ListNotations.
 From PG Require Import Common.Tactics Model.SymCoreDefs Model.SymCoreOps Model.SymCoreSpec Model.SymCoreC02
      Proofs.SymCoreBase Proofs.SymCoreWF Proofs.SymCoreWFOps Proofs.SymCoreClone Proofs.SymCoreIds Proofs.SymCoreC02Read
      Proofs.SymCoreC02Frame Proofs.SymCoreC02Prim Proofs.SymCoreC02List Proofs.SymCoreC02Dict Proofs.SymCoreC02Step
-     Proofs.SymCoreC02Slice Proofs.SymCoreC02WF Proofs.SymCoreC02Or Proofs.SymCoreC02Rebind Proofs.SymCoreC02Nested.
+     Proofs.SymCoreC02Slice Proofs.SymCoreC02WF Proofs.SymCoreC02Or Proofs.SymCoreC02Rebind Proofs.SymCoreC02Nested Proofs.SymCoreC02Refs.
 From PG Require Model.PyList Model.PyDict.
 Local Open Scope Z_scope.
 
@@ -122,4 +122,14 @@ Proof.
   - intros t G. vm_compute in G. inv G. simpl. repeat split; repeat constructor; simpl; intuition discriminate.
   - repeat (constructor; [reflexivity|]). constructor.
   - vm_compute. reflexivity.
+Qed.
+
+(* arguments that are existing values: the root dict of ex_state (adopted) and the dict stored in the list (copied) *)
+Example ex_ref_hypotheses :
+  SymCoreC02Refs.ref_value ex_state (RNodeId 3) (erase (Node 3 KDict None [] default_flags ex_dict_items)) /\
+  SymCoreC02Refs.ref_value ex_state (RNodeId 2) (PNode KDict [(ka, PLeaf (LInt 2))]).
+Proof.
+  split.
+  - exists (1%nat, []), (Node 3 KDict None [] default_flags ex_dict_items). repeat split; vm_compute; reflexivity.
+  - exists (0%nat, [KI 1]), (Node 2 KDict (Some 1%N) [KI 1] default_flags [(ka, Leaf (LInt 2))]). repeat split; vm_compute; reflexivity.
 Qed.
